@@ -78,6 +78,12 @@ class Ctx:
         self.explanation = None
         self._known = self._load_known()
         (OUT / "replay" / pid).mkdir(parents=True, exist_ok=True)
+        if replay is None:
+            for old in (OUT / "replay" / pid).glob("%s-seed%d-*.json" % (tier, self.seed)):
+                try:
+                    old.unlink()
+                except OSError:
+                    pass
 
     # ---- tiers -------------------------------------------------------------------------------
     @property
